@@ -62,6 +62,12 @@ def handle : Handler
     let od := renderRes (deOndemand c t (tokensOf d))
     let st := renderRes (deStream c t (tokensOf d))
     pure (String.intercalate "|" [txt, if hdr then "text-reader-header" else txt, tape, od, st, st])
+  | ["tref", ty, bd, _] => do
+    -- the text reference alone (against the real tape-based text deserializer): also untyped (`any`) requests,
+    -- where the two formats legitimately differ and `pair` makes no claim
+    let t ← C04.parseRoot ty
+    let d ← C04.parseBDoc bd
+    pure (renderRes (valueOfText sharedCfg t d))
   | _ => none
 
 end Jomini.Driver.C10
